@@ -37,6 +37,7 @@ class ClientRun:
         self.adapter = None          # 'rx3' / 'rx4': the application's handler is a delegate behind the Rx / ReactiveX handler adapter
         self.on_close_sleep_ms = 0
         self.slow_on_close_ms = 0
+        self.on_close_raises = False
         self.current = -1
 
     def ev(self, e):
@@ -72,6 +73,8 @@ class ClientRun:
                         await asyncio.sleep(R.on_close_sleep_ms / 1000.0)      # ... and goes on with some slow clean-up of its own
                 elif R.slow_on_close_ms:
                     await asyncio.sleep(R.slow_on_close_ms / 1000.0)          # an on_close that takes its time (examples/client_reconnect.py)
+                if R.on_close_raises:
+                    raise OSError(28, 'No space left on device')              # ... or fails (a flush of application state, say)
 
         for i, t in enumerate(self.transports):
             def on_sent(entry, i=i):
